@@ -52,10 +52,6 @@ Proof.
   repeat (destruct Hi as [<-|Hi]; [eexists; vm_compute; reflexivity|]). destruct Hi.
 Qed.
 
-(** the cache-less instance satisfies every cache invariant *)
-Lemma qcacheokc_enc : forall Sg s, QCacheOKC enc_get Sg s tt.
-Proof. intros Sg s. split; [apply enc_ok|]. intros code args r E. discriminate. Qed.
-
 (** the substitution x2 := x0, registered under id 0 *)
 Definition exq_pairs : list (nat * edge) := [(2, ce 4)].
 Definition exq_Sg : N -> option (list (nat * edge)) := csg_add (fun _ => None) 0%N exq_pairs.
